@@ -6,6 +6,25 @@ import subprocess
 VERIF = os.path.dirname(os.path.dirname(os.path.abspath(__file__)))
 
 CHECKS = {
+    "C03": dict(
+        cat="other", ref="§5 C03",
+        text="Bounded solver verdict: the real Verifier::try_from_bytes / Proof::from_bytes / "
+             "verify_with_version run on symbolic proof fields, keys and public inputs (random-oracle transcript, "
+             "discrete-log pairing); z3 shows acceptance polynomial == independent spec for V1/V2/V3 (cut-point "
+             "lemmas + root identity), the absorbed transcript sequence equals the spec sequence term by term, "
+             "and every path ends in Ok/Err (panic paths infeasible).",
+        note="random-oracle model of merlin, discrete-log model of the groups (exact for cyclic prime-order "
+             "groups), n in {4,7} quick / up to 16 thorough, <=3 public inputs; spec in py/spec/verifier.py",
+        tech="symbolic execution of the real verifier (symbolic field + dlog groups + RO transcript) + SMT (z3)"),
+    "C04": dict(
+        cat="other", ref="§5 C04",
+        text="Bounded solver verdict on the symbolic run of the real verifier: every public input and every VK "
+             "commitment has a non-vanishing coefficient in the acceptance polynomial (solver-confirmed witness) "
+             "and is absorbed before the first challenge; all (expected, provided) length pairs in [0,3]^2 end in "
+             "InconsistentPublicInputsLen exactly on mismatch; V3 seeds a different transcript, V1/V2 acceptance "
+             "polynomials differ; no feasible panic path.",
+        note="random-oracle model; binding is stated at the level of differing commitments / label / sizes",
+        tech="symbolic execution of the real verifier + SMT (z3)"),
     "C05": dict(
         cat="other", ref="§5 C05",
         text="Bounded solver verdict: the real widget row code, executed on a symbolic field, "
